@@ -20,12 +20,18 @@ ASSUMPTIONS = [
     "states after a failed exec token are not compared (the statement only fixes the reported error)",
 ]
 TIERS = {
-    "quick": {"cases": 1300, "flavours": ("asan",), "cap_s": 600},
-    "thorough": {"cases": 50000, "flavours": ("asan",), "cap_s": 3 * 3600},
+    "quick": {"cases": 6000, "flavours": ("asan",), "cap_s": 600},
+    "thorough": {"cases": 250000, "flavours": ("asan",), "cap_s": 3 * 3600},
 }
 SHRINK_LISTS = ["tokens", "stack"]
 CMP = ["stack", "altstack", "vfexec", "nOpCount", "done"]
 POS = ["curr_op_seq", "pc", "script", "pend", "hist_stack", "hist_alt", "hist_pc", "hist_nop", "successor", "is_p2sh"]
+
+
+# An operation that checks signatures looks for the signature's bytes in the script itself
+# (FindAndDelete / CONST_SCRIPTCODE).  The spliced reference script contains the exec'd pushes, the
+# real script cannot: when the reference stops with this error the two are not comparable.
+FINDANDDELETE = "Signature is found in scriptCode"
 
 
 def render_token(rng, t):
@@ -60,7 +66,7 @@ def gen_tokens(rng, regime):
         g.emit(rng.choice(["OP_DUP", "OP_DROP", "OP_DEPTH", "OP_NOP", "OP_1ADD", "OP_TOALTSTACK", "OP_SIZE", 7, -1, 0]))
     elif kind == "consuming":
         for _ in range(rng.range(1, 3)):
-            g.emit(rng.choice(["OP_DUP", "OP_DROP", "OP_SWAP", "OP_TOALTSTACK", "OP_FROMALTSTACK", "OP_DEPTH", "OP_SIZE", "OP_IFDUP", "OP_NIP", "OP_OVER", 3, 0]))
+            g.emit(rng.choice(["OP_DUP", "OP_DROP", "OP_SWAP", "OP_TOALTSTACK", "OP_FROMALTSTACK", "OP_DEPTH", "OP_SIZE", "OP_IFDUP", "OP_NIP", "OP_OVER", 3, 0, "OP_CODESEPARATOR"]))
     else:
         g.emit(*rng.choice([[1, "OP_IF"], [0, "OP_IF"], ["OP_ELSE"], ["OP_ENDIF"], [0, "OP_NOTIF", 5, "OP_ENDIF"], [1, "OP_IF", 2, "OP_ELSE", 3, "OP_ENDIF"]]))
     toks = g.toks[:6]
@@ -203,6 +209,8 @@ def evaluate(ctx, scn):
                 tainted = True
                 continue
             exec_ok = True
+            if c.post and c.post.get("pbegincodehash") == "-1" and c.pre and c.pre.get("pbegincodehash") != "-1":
+                ev.add(PROP, "position-moved", "pbegincodehash-dangling", "after `exec %s` the start of the signed script code points outside the script being debugged" % " ".join(t[0][:20] for t in toks))
             if c.pre and c.pre.get("vfexec") and "0" in c.pre.get("vfexec", ""):
                 ev.counters["probe:exec_in_unexecuted_branch"] += 1
             net += n
@@ -210,7 +218,9 @@ def evaluate(ctx, scn):
             if rep == "accepted":
                 net += 1
             elif rep == "failed":
-                if not tainted:
+                if not tainted and ref.fail and ref.fail[1] == FINDANDDELETE:
+                    ev.counters["inconclusive_findanddelete"] += 1
+                elif not tainted:
                     if not ref.fail or ref.fail[0] != net + 1:
                         ev.add(PROP, "continuation", "unexpected-failure", "after exec, step %d of the continuation fails with %r; the spliced script %s"
                                % (net + 1 - n, c.reply[1][:60], "fails elsewhere" if ref.fail else "does not fail"))
@@ -222,6 +232,10 @@ def evaluate(ctx, scn):
                     ev.add(PROP, "continuation", "premature-end", "session ended after %d operations, the spliced script has %d" % (net, ref.L))
                 break
         if tainted or not exec_done:
+            continue
+        if ref.fail and ref.fail[1] == FINDANDDELETE and net >= ref.L:
+            ev.counters["inconclusive_findanddelete"] += 1
+            tainted = True
             continue
         # clauses 1 and 3: state equality with the spliced reference
         if 0 <= net < len(ref.states):
